@@ -151,6 +151,7 @@ def run_match(rng, ctx, n_cases):
             args = [_form(rng, key), varg] + ([] if mt is None else [lit(float(mt))])
             judge(ctx, 'MATCH', args, rl.match(key, vec, 1 if mt is None else mt),
                   'approx%s:%s' % ({1: '+1', -1: '-1', None: '-default'}[mt], kind))
+    run_match_operator_order(rng, ctx, max(4, n_cases // 4))
     for _ in range(n_cases):
         n = rng.randint(1, 6)
         vec = [rng.choice(MIXED) for _ in range(n)]
@@ -164,6 +165,49 @@ def run_match(rng, ctx, n_cases):
                               else rl.tid(key))
             judge(ctx, 'MATCH', [_form(rng, key), varg, lit(0.0)],
                   rl.match(key, vec, 0), fam)
+
+
+# texts whose order depends on how case is folded (characters between 'Z' and
+# 'a'): "sorted" is taken from the library's own comparison operators (C02's
+# total order), and the positions from the linear definition over them
+ODD_WORDS = ['cost', 'costs', 'cost_total', 'cost_unit', 'COST^2', 'cost[1]', 'a_b',
+             'aZb', 'a`b', 'a\\b', 'a]b', 'ab', 'A_', 'AZ', 'a', '_a', 'Za', '^', 'z']
+_OPS = {}
+
+
+def _lib_cmp(op, a, b):
+    import formulas
+    if op not in _OPS:
+        _OPS[op] = formulas.Parser().ast('=A1%sB1' % op)[1].compile()
+    return bool(xl.scalar(_OPS[op](a, b)))
+
+
+def run_match_operator_order(rng, ctx, n_cases):
+    import functools
+    for _ in range(n_cases):
+        mt = rng.choice((1, -1))
+        pick = rng.sample(ODD_WORDS, rng.randint(2, 6))
+        vec = []
+        for w in sorted(pick, key=functools.cmp_to_key(
+                lambda a, b: -1 if _lib_cmp('<', a, b) else (1 if _lib_cmp('<', b, a) else 0))):
+            if not vec or _lib_cmp('<', vec[-1], w):
+                vec.append(w)                              # strictly ascending
+        if mt == -1:
+            vec = vec[::-1]
+        varg = _vec_arg(rng, _shape(vec, rng.random() < 0.5))
+        res = [float(10 * (i + 1)) for i in range(len(vec))]
+        for key in rng.sample(ODD_WORDS, 8) + [v.swapcase() for v in vec[:2]]:
+            ok = [i for i, v in enumerate(vec)
+                  if _lib_cmp('<=' if mt == 1 else '>=', v, key)]
+            want = xl.c_num(float(ok[-1] + 1)) if ok else xl.c_err('#N/A')
+            ctx.count('monitor.operator-order')
+            judge(ctx, 'MATCH', [_form(rng, key), varg, lit(float(mt))], {want},
+                  'approx%+d:operator-order' % mt)
+            if mt == 1:
+                wantl = xl.c_num(res[ok[-1]]) if ok else xl.c_err('#N/A')
+                judge(ctx, 'LOOKUP', [_form(rng, key), varg,
+                                      _vec_arg(rng, _shape(res, rng.random() < 0.5))],
+                      {wantl}, 'operator-order')
 
 
 def _table(rng, rows, cols, keys=None):
@@ -360,7 +404,19 @@ def check_case(case, ctx):
     from .c12 import dec_args
     if case['kind'] == 'call':
         name, args = case['name'], dec_args(case['args'])
-        acc = _accept(name, args)
+        if str(case.get('family', '')).endswith('operator-order'):
+            v = [_plain(a) for a in args]
+            vec = [x for row in v[1] for x in row]
+            mt = int(v[2]) if name == 'MATCH' else 1
+            ok = [i for i, x in enumerate(vec)
+                  if _lib_cmp('<=' if mt == 1 else '>=', x, v[0])]
+            if name == 'MATCH':
+                acc = {xl.c_num(float(ok[-1] + 1)) if ok else xl.c_err('#N/A')}
+            else:
+                res = [x for row in v[2] for x in row]
+                acc = {xl.c_num(res[ok[-1]]) if ok else xl.c_err('#N/A')}
+        else:
+            acc = _accept(name, args)
         judge(ctx, name, args, acc, case.get('family', 'replay'))
     else:
         ctx.count('replay.differential-not-replayed')
@@ -409,6 +465,9 @@ def finalize(agg, tier):
     if c.get('monitor.index-of-match', 0) < 1500:
         inc.append('monitor index-of-match saw %d events (< 1500)' % c.get(
             'monitor.index-of-match', 0))
+    if c.get('monitor.operator-order', 0) < 150:
+        inc.append('monitor operator-order saw %d events (< 150)' % c.get(
+            'monitor.operator-order', 0))
     if c.get('not-judged', 0) * 4 > c.get('monitor.reference', 1):
         inc.append('%d calls were not judged by the reference' % c.get('not-judged', 0))
     return {'inconclusive': inc}
